@@ -792,6 +792,10 @@ func runWorldHoldDeadline(w *World, r *rand.Rand, withSweep bool) {
 	}()
 	w.rep.Inc("histories")
 	w.rep.Inc("hold_and_deadline_scenarios")
+	if r.Intn(3) == 0 {
+		runWorldQuietHold(w, r, withSweep)
+		return
+	}
 	w.add(w.max*(2+r.Intn(4)) + r.Intn(w.max))
 	w.setStatus(1)
 	w.holdReleases = true
@@ -823,6 +827,56 @@ func runWorldHoldDeadline(w *World, r *rand.Rand, withSweep bool) {
 		if len(w.pending) > 0 {
 			w.deliverPending(false)
 			w.check("release")
+		}
+	}
+	if len(w.pending) > 0 && !w.failed {
+		w.deliverPending(true)
+		w.check("release")
+	}
+	if withSweep && !w.failed && len(w.tables) > 0 {
+		w.sweepCheck()
+	}
+	if !w.failed {
+		w.rep.Seen("nontrivial", fmt.Sprint(w.max, w.min, w.trace))
+	}
+}
+
+// a competition that is started before anybody registers and later put on hold with nobody registering
+// during the hold: the releases held back arrive on hold, tables report and are topped up on hold, and only
+// after play has resumed do new players register
+func runWorldQuietHold(w *World, r *rand.Rand, withSweep bool) {
+	w.rep.Inc("class_hold_without_registrations")
+	w.setStatus(1)
+	w.add(w.max + r.Intn(2*w.max+1))
+	if r.Intn(2) == 0 {
+		w.add(1 + r.Intn(w.max))
+	}
+	w.holdReleases = true
+	for k := 1 + r.Intn(4); k > 0 && len(w.order) > 0 && !w.failed; k-- {
+		w.sync(w.order[r.Intn(len(w.order))], r.Intn(4))
+		w.check("sync")
+	}
+	w.holdReleases = false
+	if w.failed {
+		return
+	}
+	w.setStatus(0)
+	w.rep.Inc("class_paused")
+	w.deliverPending(true)
+	w.check("release")
+	for k := 1 + r.Intn(4); k > 0 && len(w.order) > 0 && !w.failed; k-- {
+		w.sync(w.order[r.Intn(len(w.order))], r.Intn(3))
+		w.check("sync")
+	}
+	if w.failed {
+		return
+	}
+	w.setStatus(1)
+	for k := 1 + r.Intn(3); k > 0 && !w.failed; k-- {
+		w.add(1 + r.Intn(w.max))
+		if len(w.order) > 0 && r.Intn(2) == 0 {
+			w.sync(w.order[r.Intn(len(w.order))], r.Intn(3))
+			w.check("sync")
 		}
 	}
 	if len(w.pending) > 0 && !w.failed {
